@@ -1,5 +1,5 @@
 """C06 — valid documents are never refused by validation."""
-from vt import docgen, exec_common as X, smodel
+from vt import docgen, exec_common as X, refexec, smodel
 from vt.props import c01
 
 LEVEL = "exploration"
@@ -28,18 +28,6 @@ ANCHORS = [
 ]
 
 
-def classify(resp):
-    """('validation', tag) | ('parse', msg) | None"""
-    for e in resp.get("errors") or []:
-        if isinstance(e, dict):
-            ext = e.get("extensions") or {}
-            if isinstance(ext, dict) and ("tag" in ext or "rule" in ext):
-                return ("validation", ext.get("tag"), e.get("message"))
-            if resp.get("data") is None and e.get("message") == "Server encountered an error.":
-                return ("parse", None, e.get("message"))
-    return None
-
-
 async def run_case(ctx, rng, index):
     so = smodel.GenOpts(p_mutation=0.5, p_subscription=0.5)
     s = smodel.gen_schema(rng, so)
@@ -61,9 +49,16 @@ async def run_case(ctx, rng, index):
             if not runnable:
                 # validation still runs for the whole document: pick the subscription by name and only scan tags
                 op = doc.ops[0]
+                # the engine answers an unknown operation name only after the document passed validation: the
+                # response must be the one a trivially valid document gets for the same unknown name (differential,
+                # no wording involved)
                 resp = await guarded(ctx, b.engine, doc, op, b.sdl)
+                control = await b.engine.execute("{__typename}", operation_name="no_such_operation_")
                 if resp is not None:
-                    scan(ctx, resp, doc, op, b.sdl)
+                    if unlocated(resp) != unlocated(control):
+                        scan(ctx, resp, doc, op, b.sdl)
+                    else:
+                        ctx.stats.inc("subscription_only_documents_accepted")
                     note(ctx, doc, b.sdl)
                 continue
             req = X.gen_request(rng, s, doc=doc)
@@ -76,8 +71,16 @@ async def run_case(ctx, rng, index):
             except Exception as e:  # noqa
                 ctx.violation("execute-raised", repr(e), case)
                 continue
-            if scan(ctx, resp, doc, req.op, b.sdl, case):
-                continue
+            r = X.refused(resp, w_eng)
+            if r:
+                # nothing ran and data is null: a refusal unless the specified answer is itself 'data: null'
+                try:
+                    ref = X.run_reference(s, req, w_ref)
+                except refexec.RefBug:
+                    ref = None
+                if ref is not None and not ref.request_error and ref.data is not None:
+                    ctx.violation("valid-document-refused", "tag=%s message=%s" % r, case)
+                    continue
             await c01.check_request(ctx, s, b.engine, req, b.sdl)
             note(ctx, doc, b.sdl)
     finally:
@@ -92,14 +95,14 @@ async def guarded(ctx, engine, doc, op, sdl):
         return None
 
 
+def unlocated(resp):
+    return (resp.get("data"), sorted(X.jdump({k: v for k, v in e.items() if k != "locations"}) for e in resp.get("errors") or []))
+
+
 def scan(ctx, resp, doc, op, sdl, case=None):
-    c = classify(resp)
-    if c:
-        mech = None
-        ctx.violation("valid-document-refused", "%s tag=%s message=%s" % c,
-                      case or {"query": doc.text, "sdl": sdl}, mech)
-        return True
-    return False
+    r = X.refused(resp)
+    ctx.violation("valid-document-refused", "tag=%s message=%s" % (r or (None, None)), case or {"query": doc.text, "sdl": sdl})
+    return True
 
 
 def note(ctx, doc, sdl):
